@@ -15,17 +15,18 @@ import (
 )
 
 type c13Case struct {
-	Transport  string `json:"transport"`       // virtual: inproc | fconn | fconn-tls ; real: tcp | ws | wss | inproc
-	TLS12      bool   `json:"tls12,omitempty"` // fconn-tls: TLS capped at version 1.2 (the close notification is visible as such; crypto/tls then hands over the last record together with io.EOF)
-	Wiring     string `json:"wiring"`          // channel (bare ClientChannel) | client (lime.Client)
-	Initiator  string `json:"initiator"`       // client-finish | server-finish | server-fail | client-close | server-close
-	ChanBuf    int    `json:"chanBuf"`
-	InprocBuf  int    `json:"inprocBuf,omitempty"`
-	C2S        int    `json:"c2s"`        // envelopes the client side sends
-	S2C        int    `json:"s2c"`        // envelopes the server side sends
-	AfterSends int    `json:"afterSends"` // terminate once this many sends (both directions together) have completed; 0 = at once
-	Real       bool   `json:"real,omitempty"`
-	PeerStuck  bool   `json:"peerStuck,omitempty"` // client-close only: the server's dispatch loop is stuck in a handler, so the client's finishing envelope is not answered in time
+	Transport     string `json:"transport"`               // virtual: inproc | fconn | fconn-tls ; real: tcp | ws | wss | inproc
+	TLS12         bool   `json:"tls12,omitempty"`         // fconn-tls: TLS capped at version 1.2 (the close notification is visible as such; crypto/tls then hands over the last record together with io.EOF)
+	InitiatorBusy bool   `json:"initiatorBusy,omitempty"` // server initiators, channel wiring: the server's dispatch loop sits in a handler and more notifications than its buffers hold have arrived when it ends the session (its receiver is parked handing one over)
+	Wiring        string `json:"wiring"`                  // channel (bare ClientChannel) | client (lime.Client)
+	Initiator     string `json:"initiator"`               // client-finish | server-finish | server-fail | client-close | server-close
+	ChanBuf       int    `json:"chanBuf"`
+	InprocBuf     int    `json:"inprocBuf,omitempty"`
+	C2S           int    `json:"c2s"`        // envelopes the client side sends
+	S2C           int    `json:"s2c"`        // envelopes the server side sends
+	AfterSends    int    `json:"afterSends"` // terminate once this many sends (both directions together) have completed; 0 = at once
+	Real          bool   `json:"real,omitempty"`
+	PeerStuck     bool   `json:"peerStuck,omitempty"` // client-close only: the server's dispatch loop is stuck in a handler, so the client's finishing envelope is not answered in time
 }
 
 type c13Obs struct {
@@ -217,6 +218,9 @@ func judgeC13(c *c13Case, obs *c13Obs, o *Outcome) {
 	if c.PeerStuck {
 		o.Class("peer-stuck-in-handler")
 	}
+	if c.InitiatorBusy {
+		o.Class("initiator-busy-with-unconsumed-notifications")
+	}
 	if c.Real {
 		o.Class("real-sockets")
 	}
@@ -241,6 +245,9 @@ func judgeC13(c *c13Case, obs *c13Obs, o *Outcome) {
 		// what it promises is judged below: terminal states, closed streams, closed connection.
 		if obs.TermErr != "" {
 			o.Class("terminating-call-error=" + errClassStr(obs.TermErr))
+		}
+		if strings.Contains(obs.TermErr, "the terminating call did not return") {
+			o.Fail("C13/terminating-call-never-returns/"+key, "%s: %s", c.Initiator, obs.TermErr)
 		}
 		// a reset reported by the library while the case ran keys the (open) finding about resets narrowly; it decides nothing
 		pre, rnote := "C13/", ""
